@@ -199,6 +199,33 @@ class MapCollect(Rule):
         return out
 
 
+class CtorClosure(Rule):
+    """D33: a closure argument `(|x| Ctor(..x..))` whose body is nothing but datatype constructors applied to the parameter
+    gets its own result as postcondition: `(|x| -> (r__: T) ensures r__ == BODY { BODY })`, T read off the outermost constructor.
+    (This Verus knows nothing about an un-annotated closure's result; for a constructor application the annotation is the body itself.)"""
+    def __init__(self):
+        Rule.__init__(self, "D33", r"\(\s*\|(\w+)\|\s*(?=[A-Z])", "", "constructor closure annotated with its own body")
+
+    def custom(self, src, m, item, in_skip):
+        out = []
+        for x in self.regex.finditer(m, item.body_open, item.body_close):
+            if in_skip(x.start()):
+                continue
+            pc = rs.match_close(m, x.start())
+            body = src[x.end():pc].strip()
+            if not re.match(r"^[\w:\s(),]+$", body) or body.endswith(","):
+                continue
+            if any(not c.split("::")[-1][0].isupper() for c in re.findall(r"([\w:]+)\s*\(", body)):
+                continue      # a function call, not a constructor
+            head = re.match(r"[\w:]+", body).group(0)
+            segs = head.split("::")
+            ty = {"Ok": "Result<_, _>", "Err": "Result<_, _>", "Some": "Option<_>"}.get(segs[-1]) if len(segs) == 1 else "::".join(segs[:-1])
+            if ty is None:
+                ty = head
+            out.append(Edit(x.end(), pc, "-> (r__: %s) ensures r__ == %s { %s }" % (ty, body, body), "rule", "D33"))
+        return out
+
+
 class Loop:
     def __init__(self, invariants=(), decreases=None, iter_name=None, desugar_range_for=False, attrs=None, continue_hint=None,
                  except_break=(), ensures=(), optional=False, desugar_while_let=False):
